@@ -52,6 +52,10 @@ static std::vector<uint32_t> items_sorted(const cpc_sketch& s) {
 
 static bool same_bits(double a, double b) { return vh::dbits(a) == vh::dbits(b); }
 
+#ifdef VH_CPC_EXTRA
+static bool extra_handler(const Line& t, Out& o);   // drv_cpccodec.cpp: image-level operations (opcodes >= 40)
+#endif
+
 static void handler(const Line& t, Out& o) {
   switch ((int)t.at(0)) {
   case 1: { // new sketch r lg_k seed
@@ -200,7 +204,11 @@ static void handler(const Line& t, Out& o) {
     if (l < 0 || l > 255) throw std::invalid_argument("lg_k");
     o.R(row_col_from_two_hashes((uint64_t)t.at(1), (uint64_t)t.at(2), (uint8_t)l));
     break; }
-  default: o.R(-2);
+  default:
+#ifdef VH_CPC_EXTRA
+    if (extra_handler(t, o)) break;
+#endif
+    o.R(-2);
   }
 }
 
